@@ -43,6 +43,7 @@ def _unit(d, u):
 
 def streams(tier, rng):
     big = tier == "thorough"
+    fixed_by_family = {}
     for d in xcut.all_decoders():
         op, extra, name = d["op"], d["extra"], d["name"]
         units = [_unit(d, u) for u in d["valid"](rng)]
@@ -73,6 +74,35 @@ def streams(tier, rng):
         yield "trunc_" + tag, "exact", trunc
         yield "subst_" + tag, "exact", subst
         yield "garbage_" + tag, "verdict", garbage
+        # CRC-repairing mutations: every unit that ends in a CRC-16 trailer (PUS TC / TM / reports, every CFDP PDU built
+        # with the CRC flag) gets its length field rewritten / its data field shortened or extended / single octets
+        # substituted, and THEN the trailer is recomputed, so the mutation reaches the code behind the checksum check
+        fixed = fixed_by_family.setdefault(d["family"], [])
+        variants = [extra] + [v for v in d.get("param_variants", []) if v != extra][:: (1 if big else 5)]
+        crc_units = [u for u in units if xcut.crc_kind(d, u)]
+        for u in (crc_units if big else crc_units[:3 if "+views" in name else 6]):
+            kind = xcut.crc_kind(d, u)
+            n0 = xcut.declared(d, u)
+            for q in xcut.length_rewrites(d, u, kind, big):
+                r = xcut.repair(d, q, rng.randrange(256), 70000 if big else 2048)
+                if r is None:
+                    continue
+                p, n = r
+                ex = rng.choice(variants)
+                fixed.append((op, [p[:n]] + ex + [[4, 0]]))                 # data field cut / padded to the new length
+                if len(p) > n or rng.random() < 0.3:
+                    fixed.append((op, [p + [rng.randrange(256) for _ in range(rng.choice([0, 1, 2, 9]))]] + ex + [[4, 0]]))
+            lim = n0 - 2 if n0 is not None and 2 <= n0 <= len(u) else len(u)
+            for i in range(lim):
+                for w in ([0, 0xFF, (u[i] + 1) & 255, u[i] ^ 0x10] if not big else SUBST + [(u[i] + 1) & 255, (u[i] - 1) & 255, u[i] ^ 0x10]):
+                    if w != u[i]:
+                        q = list(u); q[i] = w
+                        r = xcut.repair(d, q, rng.randrange(256), 70000 if big else 2048)
+                        if r is not None:
+                            fixed.append((op, [r[0]] + rng.choice(variants) + [[4, 0]]))
+    for fam in sorted(fixed_by_family):
+        if fixed_by_family[fam]:
+            yield "crcfix_family_%d_%s" % (fam, xcut.FAMILY_MODULE[fam]), "exact", fixed_by_family[fam]
 
 
 import builtins as _bi
